@@ -70,7 +70,8 @@ Mask(p, n) == Fld(p \o ".num_bits", "nbits", 8, n, 0)
 Vec(p, len, elem) == Fld(p \o ".len", "len", 8, len, elem)
                      \o Fld(p \o ".items", "bytes", len * elem, 0, 0)
 
-Agg(p, n) == Opaque(p \o ".sig", BlsSigLen) \o Mask(p, n)
+BlsSig(f) == Fld(f, "blssig", BlsSigLen, 0, 0)          \* validated curve point: contents not modelled
+Agg(p, n) == BlsSig(p \o ".sig") \o Mask(p, n)
 OptAgg(p, present, n) ==
   Tag(p \o ".opt", 1, IF present THEN 1 ELSE 0, 2) \o (IF present THEN Agg(p, n) ELSE <<>>)
 
@@ -122,7 +123,7 @@ Layout(m) ==
          Tag("cm.tag", 4, 0, 2) \o Tag("vote.tag", 4, TagOf(VoteKinds, m.k), 5)
          \o Opaque("slot", 8)
          \o (IF m.k \in {"notar", "nf"} THEN Opaque("block_hash", HashLen) ELSE <<>>)
-         \o Opaque("sig", BlsSigLen)
+         \o BlsSig("sig")
          \o Idx("signer", m.sv, 0)
     [] m.t = "cert" ->
          Tag("cm.tag", 4, 1, 2) \o Tag("cert.tag", 4, TagOf(CertKinds, m.k), 5)
@@ -189,10 +190,11 @@ ReEncField(fs, i) ==
     [] OTHER -> f
 ReEnc(E) == [fs |-> [i \in 1..Len(E.fs) |-> ReEncField(E.fs, i)], tail |-> 0]
 
-\* the decoded value as seen by PartialEq / Debug: tags, indices, bit lengths, vector lengths
-\* (opaque contents are never altered by the classes below)
+\* the decoded value as seen by PartialEq / Debug: tags, indices, bit lengths, vector lengths,
+\* and a marker (v = 1) for altered contents of opaque fields, vector items and live bitmask bits
 Val(E) == [i \in 1..Len(E.fs) |->
-             IF E.fs[i].ty \in {"tag", "idx", "nbits", "len"} THEN E.fs[i].v ELSE 0]
+             IF E.fs[i].ty \in {"tag", "idx", "nbits", "len", "opaque", "bytes", "words"}
+             THEN E.fs[i].v ELSE 0]
 SameShape(E, F) == Len(E.fs) = Len(F.fs) /\ \A i \in 1..Len(E.fs) : E.fs[i].f = F.fs[i].f
 ValEq(E, F) == SameShape(E, F) /\ Val(E) = Val(F)
 
@@ -223,6 +225,8 @@ Muts(m) ==
   \cup {[cls |-> "words_to_max", fi |-> i] : i \in {j \in FieldIdx(fs, "nbits") : fs[j + 1].v < MaxWords}}
   \cup {[cls |-> "nbits_small", fi |-> i] : i \in {j \in FieldIdx(fs, "nbits") : fs[j + 1].v >= 2}}
   \cup {[cls |-> "len_overflow", fi |-> i] : i \in FieldIdx(fs, "len")}
+  \cup {[cls |-> "flip_content", fi |-> i] :
+          i \in {j \in 1..Len(fs) : fs[j].ty \in {"opaque", "bytes", "words"} /\ fs[j].w > 0}}
   \cup (IF m.t = "tx" /\ m.len = MaxTxSize
         THEN {[cls |-> "tx_oversize", fi |-> 1], [cls |-> "tx_fill_mtu", fi |-> 1]} ELSE {})
   \cup (IF m.t = "cert" /\ TwoHalves(m.k) /\ m.a # "none" /\ m.b = "none"
@@ -268,6 +272,8 @@ Mutate(fs, mal) ==
          R(SetF(fs, i, "v", WordBits * (fs[i + 1].v - 1)), 0, <<Op("set", off, 8, WordBits * (fs[i + 1].v - 1))>>)
     [] mal.cls = "garbage_live" ->
          R(SetF(fs, i + 2, "x", 1), 0, <<Op("or", Offset(fs, i + 2) + fs[i + 2].w - 1, 1, 128)>>)
+    [] mal.cls = "flip_content" ->        \* lowest bit of the field's first byte (validator 0's bit in a bitmask)
+         R(SetF(fs, i, "v", 1), 0, <<Op("xor", off, 1, 1)>>)
     [] mal.cls = "len_overflow" -> R(SetF(fs, i, "v", Big), 0, <<Op("set", off, 8, Big)>>)
     [] mal.cls = "tx_oversize" ->         \* one byte more than MAX_TRANSACTION_SIZE
          R(SetF(SetF(fs, 1, "v", MaxTxSize + 1), 2, "w", MaxTxSize + 1), 0,
